@@ -1616,6 +1616,7 @@ impl<'a> Visitor<'a> {
         mem::swap(&mut self.env, &mut old_env);
         let val = callback(self);
         mem::swap(&mut self.env, &mut old_env);
+        self.env.scopes.last_variable_index = None;
         val
     }
 
